@@ -16,7 +16,13 @@
     image is rebuilt from the recorded payloads (and, for the subset "everything issued so far", cross-checked against a
     real process killed by iotrace's crash-after-n), the same front-end is run again, and a `crash` line carries what it left.
     TLC accepts the line only if the rebuilt image is the crash image the spec derives and the re-run result equals
-    RunAgainOf(image) = Final with the journal empty, the flag clear and no other block differing."""
+    RunAgainOf(image) = Final with the journal empty, the flag clear and no other block differing.
+(4) TWO DEVICES: the journal location (ExtChoices of the spec: internal journal inode / journal device of its own, mke2fs -O journal_dev,
+    attached to the filesystem by UUID as ext2fs_add_journal_device does) is a dimension of the model AND of the conformance universe.
+    With an external journal both image files are recorded under iotrace (two targets), every write / fsync line carries its device,
+    TLC makes only the fsynced device's pending writes durable, and the crash images are enumerated over the product of what the
+    filesystem device and the journal device may each have kept.  e2fsck finds the journal with -j, debugfs jr through libblkid
+    (BLKID_FILE cache naming the journal image)."""
 import os, sys, json, random, shutil, struct, gzip, hashlib, itertools, time, threading, concurrent.futures as cf
 from common import VERIF, fast_tmp, seed, die_broken, NPROC, tool_env
 from common import run as sh
@@ -36,6 +42,10 @@ JOBS = 4
 MAX_CONFIRM = 8
 SB_OFF = 1024
 FLAG_OFF = SB_OFF + 96           # s_feature_incompat (le32); INCOMPAT_RECOVER = 0x4 lives in its lowest byte
+JNL_UUID = "11111111-2222-3333-4444-555555555555"      # UUID of the journal device images
+FS_UUID = "01234567-89ab-cdef-0123-456789abcdef"
+# external-journal profiles: (base profile whose mke2fs options are used with ^has_journal, journal device size in blocks)
+EXT_PROFILES = {"ext4_1k_xj": ("ext4_1k", 1024), "ext4_4k_csum64_xj": ("ext4_4k_csum64", 1024)}
 
 # ---- fields the property does not cover (block-exact comparison of the re-run result with the uninterrupted result) ----
 # Tools run with fixed clocks (E2FSCK_TIME, E2FSPROGS_FAKE_TIME), so the check/mount time stamps and mount counts come out equal and ARE
@@ -61,8 +71,9 @@ def masked(block, excl, base=0):
 
 class Layout:
     """Where the locations of the abstract state live in one image."""
-    def __init__(self, bs, jsb_block, log_blocks, tb, vers, nblocks):
+    def __init__(self, bs, jsb_block, log_blocks, tb, vers, nblocks, jd=0):
         self.bs, self.jsb_block, self.log = bs, jsb_block, set(log_blocks)
+        self.jd = jd                            # device (index into the list of images) that holds the journal: 0 = the filesystem image
         self.tb = dict(tb)                      # id -> block number
         self.id_of = {v: k for k, v in self.tb.items()}
         self.vers = vers                        # payload bytes -> version (per id, or shared)
@@ -75,27 +86,34 @@ class Layout:
             return v[bid].get(content, -1)
         return v.get(content, -1)
 
-    def abstract(self, img):
+    def abstract(self, imgs):
+        """imgs: list of device contents, [filesystem] or [filesystem, journal device]."""
         bs = self.bs
+        img, jimg = imgs[0], imgs[self.jd]
         blk = [self.version(i, bytes(img[self.tb[i] * bs:(self.tb[i] + 1) * bs])) for i in range(1, self.nb + 1)]
         jo = self.jsb_block * bs
-        magic, = struct.unpack_from(">I", img, jo)
-        start, = struct.unpack_from(">I", img, jo + 28)
+        magic, = struct.unpack_from(">I", jimg, jo)
+        start, = struct.unpack_from(">I", jimg, jo + 28)
         jsb = (0 if start == 0 else 1) if magic == J.MAGIC else -1
         sb = 1 if img[FLAG_OFF] & 0x4 else 0
         return {"blk": blk, "jsb": jsb, "sb": sb}
 
 
-def classify(trace_path, blob_path, img0, lay):
-    """-> list of raw device events in order: {"t":"w","off","data","ents":[(k,b,v)..],"n"} | {"t":"fsync","n"}.
+def classify(trace_path, blob_path, imgs0, lay):
+    """-> list of raw device events in order: {"t":"w","d","off","data","ents":[(k,b,v)..],"n"} | {"t":"fsync","d","n"}; d = device
+    (iotrace target index: 0 = filesystem image, 1 = journal device image).
     ents = abstract entries of a write (one per location it touches); writes touching no location have ents = []."""
-    shadow = bytearray(img0)
+    shadows = [bytearray(x) for x in imgs0]
     blobs = open(blob_path, "rb").read() if os.path.exists(blob_path) else b""
     bs = lay.bs
     raw = []
     for ln in open(trace_path):
         d = json.loads(ln)
         e = d["e"]
+        dev = d.get("tgt", 0)
+        if dev < 0 or dev >= len(shadows):
+            die_broken("iotrace recorded an event on an unknown target %s" % dev)
+        shadow = shadows[dev]
         if e in ("pwrite", "write"):
             if d.get("fail"):
                 continue
@@ -108,43 +126,78 @@ def classify(trace_path, blob_path, img0, lay):
             if len(data) != n:
                 die_broken("iotrace payload file is short")
             if off + n > len(shadow):
-                die_broken("recovery wrote past the end of the image (offset %d)" % off)
+                die_broken("recovery wrote past the end of the image (device %d, offset %d)" % (dev, off))
             shadow[off:off + n] = data
             ents = []
             for blk in range(off // bs, (off + n - 1) // bs + 1) if n else []:
-                if blk == lay.jsb_block:
-                    ents.append(("jsb", 0, lay.abstract(shadow)["jsb"]))
-                elif blk in lay.id_of:
+                if dev == lay.jd and blk == lay.jsb_block:
+                    ents.append(("jsb", 0, lay.abstract(shadows)["jsb"]))
+                elif dev == 0 and blk in lay.id_of:
                     i = lay.id_of[blk]
                     ents.append(("blk", i, lay.version(i, bytes(shadow[blk * bs:(blk + 1) * bs]))))
-                elif blk in lay.log:
+                elif dev == lay.jd and blk in lay.log:
                     ents.append(("log", 0, blk))
-            if off <= FLAG_OFF < off + n:
-                ents.append(("sb", 0, 1 if shadow[FLAG_OFF] & 0x4 else 0))
-            elif off < SB_OFF + 1024 and off + n > SB_OFF:
-                ents.append(("sbp", 0, 0))          # a piece of the primary superblock that does not hold the flag
-            raw.append({"t": "w", "off": off, "data": data, "ents": ents, "n": d["n"]})
+            if dev == 0:
+                if off <= FLAG_OFF < off + n:
+                    ents.append(("sb", 0, 1 if shadow[FLAG_OFF] & 0x4 else 0))
+                elif off < SB_OFF + 1024 and off + n > SB_OFF:
+                    ents.append(("sbp", 0, 0))          # a piece of the primary superblock that does not hold the flag
+            raw.append({"t": "w", "d": dev, "off": off, "data": data, "ents": ents, "n": d["n"]})
         elif e == "fsync":
-            raw.append({"t": "fsync", "n": d["n"]})
+            raw.append({"t": "fsync", "d": dev, "n": d["n"]})
         elif e in ("ftruncate", "fallocate", "pwritev"):
             die_broken("recovery issued %s on the image: not modelled by the recorder's crash-image reconstruction" % e)
-    return raw, bytes(shadow)
+    return raw, [bytes(x) for x in shadows]
 
 
-def traced_run(b, fe, img, crash_after=0):
+def fe_env(b, paths, extra=None):
+    """Tool environment of one case.  With an external journal debugfs (and e2fsck's journal-hint check) find the journal
+    device by UUID through libblkid: a private cache file names the journal image."""
+    e = dict(extra or {})
+    if len(paths) > 1:
+        e["BLKID_FILE"] = paths[0] + ".blkid"
+        if not os.path.exists(e["BLKID_FILE"]):
+            with open(e["BLKID_FILE"], "w") as f:
+                f.write('<device DEVNO="0x0000" TIME="1600000000.0" UUID="%s" TYPE="jbd">%s</device>\n' % (JNL_UUID, os.path.abspath(paths[1])))
+    return tool_env(b, e)
+
+
+def fe_cmd(b, fe, paths):
+    cmd = c03.fe_cmd(b, fe, paths[0])
+    if len(paths) > 1 and fe.startswith("e2fsck"):
+        cmd = cmd[:-1] + ["-j", paths[1], paths[0]]
+    return cmd
+
+
+def read_all(paths):
+    out = []
+    for p in paths:
+        with open(p, "rb") as f:
+            out.append(f.read())
+    return out
+
+
+def write_all(paths, imgs):
+    for p, x in zip(paths, imgs):
+        with open(p, "wb") as f:
+            f.write(x)
+
+
+def traced_run(b, fe, paths, crash_after=0):
+    img = paths[0]
     tr, bl = img + ".nd", img + ".blob"
     for f in (tr, bl):
         if os.path.exists(f):
             os.unlink(f)
-    extra = dict(LD_PRELOAD=IOTRACE, VERIF_IOTRACE_TARGET=os.path.basename(img), VERIF_IOTRACE_OUT=tr, VERIF_IOTRACE_BLOBS=bl)
+    extra = dict(LD_PRELOAD=IOTRACE, VERIF_IOTRACE_TARGET=":".join(os.path.basename(p) for p in paths), VERIF_IOTRACE_OUT=tr, VERIF_IOTRACE_BLOBS=bl)
     if crash_after:
         extra["VERIF_CRASH_AFTER"] = str(crash_after)
-    rc, out, err = sh(c03.fe_cmd(b, fe, img), env=tool_env(b, extra), timeout=120)
+    rc, out, err = sh(fe_cmd(b, fe, paths), env=fe_env(b, paths, extra), timeout=120)
     return rc, (out + err).decode("utf8", "replace"), tr, bl
 
 
-def plain_run(b, fe, img):
-    rc, out, err = sh(c03.fe_cmd(b, fe, img), env=tool_env(b), timeout=120)
+def plain_run(b, fe, paths):
+    rc, out, err = sh(fe_cmd(b, fe, paths), env=fe_env(b, paths), timeout=120)
     return rc, (out + err).decode("utf8", "replace")
 
 
@@ -161,50 +214,67 @@ def sb_csum_bad(img):
     return 0 if J.crc32c_raw(0xFFFFFFFF, bytes(sb[:1020])) == struct.unpack_from("<I", sb, 1020)[0] else 1
 
 
-def diff_blocks(a, c, lay, extra_sb=()):
-    """Blocks that differ between two final images outside the excluded fields."""
-    if len(a) != len(c):
-        return [-1]
-    if a == c:
-        return []
-    bs = lay.bs
+def diff_blocks(A, C, lay, extra_sb=()):
+    """Blocks that differ between two final states (lists of device contents) outside the excluded fields; blocks of the journal
+    device are reported as -(block + 2)."""
     out = []
-    sbblk = SB_OFF // bs
-    for blk in range(len(a) // bs):
-        x, y = a[blk * bs:(blk + 1) * bs], c[blk * bs:(blk + 1) * bs]
-        if x == y:
+    for dev, (a, c) in enumerate(zip(A, C)):
+        if len(a) != len(c):
+            return [-1]
+        if a == c:
             continue
-        if blk == sbblk:
-            x, y = masked(x, SB_EXCLUDED + list(extra_sb), SB_OFF - blk * bs), masked(y, SB_EXCLUDED + list(extra_sb), SB_OFF - blk * bs)
-        elif blk == lay.jsb_block:
-            x, y = masked(x, JSB_EXCLUDED), masked(y, JSB_EXCLUDED)
-        if x != y:
-            out.append(blk)
+        bs = lay.bs
+        sbblk = SB_OFF // bs
+        for blk in range(len(a) // bs):
+            x, y = a[blk * bs:(blk + 1) * bs], c[blk * bs:(blk + 1) * bs]
+            if x == y:
+                continue
+            if dev == 0 and blk == sbblk:
+                x, y = masked(x, SB_EXCLUDED + list(extra_sb), SB_OFF - blk * bs), masked(y, SB_EXCLUDED + list(extra_sb), SB_OFF - blk * bs)
+            if dev == lay.jd and blk == lay.jsb_block:
+                x, y = masked(x, JSB_EXCLUDED), masked(y, JSB_EXCLUDED)
+            if x != y:
+                out.append(blk if dev == 0 else -(blk + 2))
     return out
+
+
+def subset_catalogue(pend):
+    """Boundary catalogue of what ONE device may keep of its pending writes: everything, nothing, all but one, exactly one."""
+    cand = [tuple(pend), ()] + [tuple(x for x in pend if x != y) for y in pend] + [(y,) for y in pend]
+    seen, uniq = set(), []
+    for c in cand:
+        if c not in seen:
+            seen.add(c); uniq.append(c)
+    return uniq
 
 
 def crash_plan(raw, tier, rng, max_points, max_subsets):
     """Crash points (number of raw events completed, 1..len(raw)) and for each the kept-subsets of the pending raw writes.
+    A write is pending until a later fsync OF ITS DEVICE has completed; the kept-subsets range over the product of what the
+    filesystem device and the journal device may each have kept.
     -> list of (n, pending raw indexes, [kept tuples])."""
     R = len(raw)
     pend_at = []                    # pending raw write indexes after n events
     cur = []
     for r in raw:
         if r["t"] == "fsync":
-            cur = []
+            cur = [i for i in cur if raw[i]["d"] != r["d"]]
         else:
             cur = cur + [len(pend_at)]
         pend_at.append(list(cur))
     points = list(range(1, R + 1))
     if tier == "quick" and len(points) > max_points:
-        # always keep the points where the pending set holds a replayed block or a journal/fs superblock write
+        # always keep the points where the pending set holds a replayed block or a journal/fs superblock write, or spans both devices
         def weight(n):
             ks = {e[0] for i in pend_at[n - 1] for e in raw[i]["ents"]}
-            return (2 if ("blk" in ks or ("jsb" in ks and "sb" in ks)) else 1 if ks else 0)
+            two = len({raw[i]["d"] for i in pend_at[n - 1] if raw[i]["ents"]}) > 1
+            return (2 if ("blk" in ks or ("jsb" in ks and "sb" in ks) or two) else 1 if ks else 0)
         strong = [n for n in points if weight(n) == 2]
         rest = [n for n in points if weight(n) < 2]
         rng.shuffle(strong); rng.shuffle(rest)
-        points = sorted((strong + rest)[:max_points])
+        # two points at which located writes of BOTH devices are pending are always among the chosen ones
+        both = [n for n in strong if len({raw[i]["d"] for i in pend_at[n - 1] if raw[i]["ents"]}) > 1][:2]
+        points = sorted((both + [n for n in strong if n not in both] + rest)[:max_points])
     plan = []
     for n in points:
         pend = pend_at[n - 1]
@@ -216,12 +286,19 @@ def crash_plan(raw, tier, rng, max_points, max_subsets):
             for m in range(k + 1):
                 subs += list(itertools.combinations(pend, m))
         else:
-            cand = [tuple(pend), ()] + [tuple(x for x in pend if x != y) for y in pend] + [(y,) for y in pend]
-            seen, uniq = set(), []
-            for c in cand:
-                if c not in seen:
-                    seen.add(c); uniq.append(c)
-            head, tail = uniq[:2], uniq[2:]
+            per = [[i for i in pend if raw[i]["d"] == dv] for dv in (0, 1)]
+            if per[0] and per[1]:
+                # product of the two devices' catalogues; the four corners (each device keeps all / nothing) come first
+                c0, c1 = subset_catalogue(per[0]), subset_catalogue(per[1])
+                uniq = [tuple(sorted(x + y)) for x in c0[:2] for y in c1[:2]]
+                rest = [tuple(sorted(x + y)) for x in c0 for y in c1 if tuple(sorted(x + y)) not in set(uniq)]
+                uniq += list(dict.fromkeys(rest))
+                nhead = 4
+            else:
+                uniq = subset_catalogue(pend)
+                nhead = 2
+            seen = set(uniq)
+            head, tail = uniq[:nhead], uniq[nhead:]
             rng.shuffle(tail)
             extra = []
             for _ in range(40):
@@ -230,26 +307,27 @@ def crash_plan(raw, tier, rng, max_points, max_subsets):
                 c = tuple(x for x in pend if rng.random() < 0.5)
                 if c not in seen:
                     seen.add(c); extra.append(c)
-            subs = (head + tail + extra)[:max_subsets] if tier == "quick" else head + tail + extra
+            subs = (head + tail + extra)[:max(max_subsets, nhead)] if tier == "quick" else head + tail + extra
         plan.append((n, pend, subs))
     return plan
 
 
-def rebuild(img0, raw, n, kept):
-    """Image after a crash following raw event n (1-based count): durable writes + the kept pending ones, program order."""
-    img = bytearray(img0)
-    last_sync = 0
+def rebuild(imgs0, raw, n, kept):
+    """Device contents after a crash following raw event n (1-based count): per device the writes covered by a completed fsync of
+    that device + the kept pending ones, program order."""
+    imgs = [bytearray(x) for x in imgs0]
+    last_sync = [0] * len(imgs)
     for i in range(n):
         if raw[i]["t"] == "fsync":
-            last_sync = i + 1
+            last_sync[raw[i]["d"]] = i + 1
     ks = set(kept)
     for i in range(n):
         r = raw[i]
         if r["t"] != "w":
             continue
-        if i < last_sync or i in ks:
-            img[r["off"]:r["off"] + len(r["data"])] = r["data"]
-    return bytes(img)
+        if i < last_sync[r["d"]] or i in ks:
+            imgs[r["d"]][r["off"]:r["off"] + len(r["data"])] = r["data"]
+    return [bytes(x) for x in imgs]
 
 
 class Case:
@@ -257,19 +335,20 @@ class Case:
     pass
 
 
-def run_case(b, work, tag, load_line, img0, lay, fe, tier, rng, max_points, max_subsets, real_crash_checks):
+def run_case(b, work, tag, load_line, imgs0, lay, fe, tier, rng, max_points, max_subsets, real_crash_checks):
+    """imgs0: [filesystem image] or [filesystem image, journal device image]."""
     c = Case()
     c.tag, c.fe = tag, fe
-    img = os.path.join(work, "c_%s.img" % tag)
-    with open(img, "wb") as f:
-        f.write(img0)
-    rc, msg, tr, bl = traced_run(b, fe, img)
+    nd = len(imgs0)
+    paths = [os.path.join(work, "c_%s.%s" % (tag, sfx)) for sfx in ("img", "jnl")[:nd]]
+    cpaths = [os.path.join(work, "x_%s.%s" % (tag, sfx)) for sfx in ("img", "jnl")[:nd]]
+    write_all(paths, imgs0)
+    rc, msg, tr, bl = traced_run(b, fe, paths)
     c.rc, c.msg = rc, msg[-300:]
     if rc < 0 or rc == 124:
         c.abnormal = True
-    raw, shadow = classify(tr, bl, img0, lay)
-    with open(img, "rb") as f:
-        final = f.read()
+    raw, shadow = classify(tr, bl, imgs0, lay)
+    final = read_all(paths)
     if shadow != final:
         die_broken("recorder incomplete: replaying the recorded writes of %s does not reproduce its final image (%s)" % (fe, tag))
     c.nraw = len(raw)
@@ -277,35 +356,36 @@ def run_case(b, work, tag, load_line, img0, lay, fe, tier, rng, max_points, max_
     # abstract lines + position bookkeeping
     lines = [load_line]
     line_of_raw = []          # index into lines after which a crash following raw event r belongs
-    pend_abs = []             # abstract pend (list of (raw index)) since the last fsync, mirrors the spec's pend
+    pend_abs = []             # mirrors the spec's pend: raw index of every abstract write not yet covered by an fsync of its device
     pend_hist = []
     for ri, r in enumerate(raw):
         if r["t"] == "fsync":
-            lines.append({"e": "fsync"}); pend_abs = []
+            if r["d"] == 0 or nd > 1:
+                lines.append({"e": "fsync", "d": r["d"]})
+            pend_abs = [x for x in pend_abs if raw[x]["d"] != r["d"]]
         else:
             for (k, bb, v) in r["ents"]:
-                lines.append({"e": "w", "k": k, "b": bb, "v": v}); pend_abs = pend_abs + [ri]
+                lines.append({"e": "w", "d": r["d"], "k": k, "b": bb, "v": v}); pend_abs = pend_abs + [ri]
         line_of_raw.append(len(lines))
         pend_hist.append(list(pend_abs))
     c.n_w = sum(1 for x in lines if x["e"] == "w")
     c.n_fsync = sum(1 for x in lines if x["e"] == "fsync")
+    c.n_jdev = sum(1 for x in lines if x.get("d") == 1)
     # fault enumeration
     crashes = {}              # line position -> [crash lines]
     c.crash_cases = 0
     c.nontrivial = set()
     c.real_crash = 0
+    c.cross_dev = 0
     plan = crash_plan(raw, tier, rng, max_points, max_subsets)
-    cimg = os.path.join(work, "x_%s.img" % tag)
     for (n, pend, subs) in plan:
         for kept in subs:
-            image = rebuild(img0, raw, n, kept)
+            image = rebuild(imgs0, raw, n, kept)
             if real_crash_checks and tuple(kept) == tuple(pend) and c.real_crash < real_crash_checks:
                 # cross-check of the reconstruction: kill the real process right after its n-th device event
-                with open(cimg, "wb") as f:
-                    f.write(img0)
-                rcx, _, trx, blx = traced_run(b, fe, cimg, crash_after=raw[n - 1]["n"])
-                with open(cimg, "rb") as f:
-                    killed = f.read()
+                write_all(cpaths, imgs0)
+                rcx, _, trx, blx = traced_run(b, fe, cpaths, crash_after=raw[n - 1]["n"])
+                killed = read_all(cpaths)
                 for p in (trx, blx):
                     if os.path.exists(p):
                         os.unlink(p)
@@ -314,21 +394,20 @@ def run_case(b, work, tag, load_line, img0, lay, fe, tier, rng, max_points, max_
                 if killed != image:
                     die_broken("crash-image reconstruction differs from the image a really killed %s left (event %d, %s)" % (fe, n, tag))
                 c.real_crash += 1
-            with open(cimg, "wb") as f:
-                f.write(image)
-            rc2, msg2 = plain_run(b, fe, cimg)
-            with open(cimg, "rb") as f:
-                again = f.read()
+            write_all(cpaths, image)
+            rc2, msg2 = plain_run(b, fe, cpaths)
+            again = read_all(cpaths)
             ab = lay.abstract(again)
             df = diff_blocks(final, again, lay)
             sdiff = 0
             if df and not diff_blocks(final, again, lay, STATE_BITS):
                 df, sdiff = [], 1                  # the only difference is ERROR_FS / VALID_FS in s_state
-            torn = sb_csum_bad(image)
+            torn = sb_csum_bad(image[0])
             ai = lay.abstract(image)
             kept_abs = [pi + 1 for pi, ri in enumerate(pend_hist[n - 1]) if ri in set(kept)]
             ln = {"e": "crash", "kept": kept_abs, "img": ai, "obs": ab["blk"], "jstart": ab["jsb"], "nro": ab["sb"], "diff": len(df), "torn": torn, "sdiff": sdiff,
-                  "_n": n, "_kept_raw": list(kept), "_pending_raw": list(pend), "_rc": rc2, "_msg": msg2[-200:], "_diff_blocks": df[:10]}
+                  "_n": n, "_kept_raw": list(kept), "_pending_raw": list(pend), "_pending_dev": [raw[i]["d"] for i in pend], "_rc": rc2, "_msg": msg2[-200:],
+                  "_diff_blocks": df[:10]}
             crashes.setdefault(line_of_raw[n - 1], []).append(ln)
             c.crash_cases += 1
             if rc2 < 0 or rc2 == 124:
@@ -337,7 +416,14 @@ def run_case(b, work, tag, load_line, img0, lay, fe, tier, rng, max_points, max_
             kinds_p = {e[0] for i in pend for e in raw[i]["ents"]}
             if ("blk" in kinds_p or "jsb" in kinds_p) and 0 < len(kept) < len(pend) or ("blk" in kinds_p and "jsb" in kinds_p):
                 c.nontrivial.add((tag, n, tuple(kept)))
-    for p in (cimg, img, tr, bl):
+            # cross-device crash state: both devices have pending writes and they fare differently (one keeps, the other loses)
+            pd = [[i for i in pend if raw[i]["d"] == dv] for dv in (0, 1)]
+            if pd[0] and pd[1]:
+                kd = [[i for i in kept if raw[i]["d"] == dv] for dv in (0, 1)]
+                if (len(kd[0]) == len(pd[0])) != (len(kd[1]) == len(pd[1])) or (not kd[0]) != (not kd[1]):
+                    c.cross_dev += 1
+                    c.nontrivial.add((tag, n, tuple(kept)))
+    for p in cpaths + paths + [tr, bl, paths[0] + ".blkid", cpaths[0] + ".blkid", paths[0] + ".blkid.old", cpaths[0] + ".blkid.old"]:
         if os.path.exists(p):
             os.unlink(p)
     out = []
@@ -355,7 +441,8 @@ def strip(ln):
 
 def trace_cfg(work):
     cfg = os.path.join(work, "Trace_JournalRun.cfg")
-    consts = dict(Blocks="{1}", MaxPlan=0, MaxCrash=0, SyncInRecover="TRUE", ReleaseAfterFlush="TRUE", FlushFsyncs="TRUE", OpenFsyncs="TRUE")
+    consts = dict(Blocks="{1}", MaxPlan=0, MaxCrash=0, SyncInRecover="TRUE", ReleaseAfterFlush="TRUE", FlushFsyncs="TRUE", OpenFsyncs="TRUE", SyncFsDev="TRUE",
+                  ExtChoices="{FALSE}")       # ext is set by every load line
     consts.update(c03.CONF_DEVS)
     consts.update(CONF_DEVS)
     T.write_cfg(cfg, spec="TraceSpec", constants=consts,
@@ -396,25 +483,27 @@ def route_devs(vd, cases, bad):
 
 
 # ---------------------------------------------------------------------------------------------- model checking
-MC_INV = ["TypeOK", "Idempotent", "IdempotentSubsets", "NeverEmptyBeforeDurable", "KeepsRequesting", "FlagAfterEmpty",
+MC_INV = ["TypeOK", "Idempotent", "IdempotentSubsets", "NeverEmptyBeforeDurable", "CrashImagesAreDeviceProduct", "KeepsRequesting", "FlagAfterEmpty",
           "FlagAfterEmptyCrash", "ProductFormExact", "Done", "CrashedIdempotent", "NoBlockedWrite", "SbAtomic", "SbAtomicOrDev",
           "ErrorRemembered", "ErrorRememberedSubsets"]
 PROP_INV = ["Idempotent", "KeepsRequesting", "FlagAfterEmpty", "Done", "CrashedIdempotent"]
-VARIANTS = [("SyncInRecover", "jbd2_journal_recover without sync_blockdev"),
-            ("ReleaseAfterFlush", "journal superblock released (s_start = 0) before the flush"),
-            ("FlushFsyncs", "unix_flush without fsync")]
+# (constant set FALSE, journal locations in which TLC must reject it, what it is)
+VARIANTS = [("SyncInRecover", ("{FALSE}", "{TRUE}"), "jbd2_journal_recover without sync_blockdev"),
+            ("ReleaseAfterFlush", ("{FALSE}", "{TRUE}"), "journal superblock released (s_start = 0) before the flush"),
+            ("FlushFsyncs", ("{FALSE}", "{TRUE}"), "unix_flush without fsync"),
+            ("SyncFsDev", ("{TRUE}",), "sync_blockdev(j_fs_dev) flushes the journal device's channel instead of the filesystem's")]
 
 
 def mc_consts(**kw):
-    c = dict(Blocks="{1, 2}", MaxPlan=3, MaxCrash=1, SyncInRecover="TRUE", ReleaseAfterFlush="TRUE", FlushFsyncs="TRUE", OpenFsyncs="TRUE",
-             DevSbPiecemeal="FALSE", DevErrorLostOnCrash="FALSE")
+    c = dict(Blocks="{1, 2}", MaxPlan=3, MaxCrash=1, ExtChoices="{FALSE, TRUE}", SyncInRecover="TRUE", ReleaseAfterFlush="TRUE", FlushFsyncs="TRUE", OpenFsyncs="TRUE",
+             SyncFsDev="TRUE", DevSbPiecemeal="FALSE", DevErrorLostOnCrash="FALSE")
     c.update(kw)
     return c
 
 
 def model_check(ev, vd, tier, work):
     mod = os.path.join(SPEC, "JournalRun.tla")
-    runs = [("protocol of the pinned tree, 2 blocks, plans <= 3 writes, 1 crash", mc_consts(), MC_INV)]
+    runs = [("protocol of the pinned tree, internal journal and journal device, 2 blocks, plans <= 3 writes, 1 crash", mc_consts(), MC_INV)]
     if tier == "thorough":
         runs.append(("protocol of the pinned tree, 3 blocks, plans <= 3 writes, 2 crashes", mc_consts(Blocks="{1, 2, 3}", MaxPlan=3, MaxCrash=2), MC_INV))
         runs.append(("protocol of the pinned tree, 2 blocks, plans <= 4 writes, 2 crashes", mc_consts(MaxPlan=4, MaxCrash=2), MC_INV))
@@ -431,18 +520,25 @@ def model_check(ev, vd, tier, work):
             die_broken("TLC failed on JournalRun (%s): %s\n%s" % (label, r.error, r.out[-1500:]))
         if n == 0:
             dead = [a for a, (dist, taken) in r.coverage.items() if taken == 0 and a in
-                    ("Open", "CheckJsb", "Load", "ReplayWrite", "EndReplay", "SyncFs", "JsbRelease", "CloseFs", "Reopen", "ClearRecover", "ErrFlush", "ErrClear", "FinalFlush", "WriteBack", "Crash", "RunAgain")]
+                    ("Open", "JOpen", "JClose", "CheckJsb", "Load", "ReplayWrite", "EndReplay", "SyncFs", "JsbRelease", "CloseFs", "Reopen", "ClearRecover", "ErrFlush", "ErrClear", "FinalFlush", "WriteBack", "Crash", "RunAgain")]
             if dead or not r.coverage:
                 die_broken("vacuity: actions never taken in JournalRun: %s" % (dead or "no coverage reported"))
     # vacuity guard: every wrong ordering must be rejected
     rej = {}
-    for n, (flag, what) in enumerate(VARIANTS):
-        cfg = os.path.join(work, "MC_JournalRun_bad%d.cfg" % n)
-        T.write_cfg(cfg, spec="Spec", constants=mc_consts(**{flag: "FALSE"}), invariants=PROP_INV)
-        r = T.tlc(mod, cfg, workers=2, timeout=600, xmx="2g")
-        if not r.violated:
-            die_broken("vacuity: the wrong ordering '%s' (%s = FALSE) is not rejected by TLC: %s" % (what, flag, r.error or "no invariant violated"))
-        rej[flag] = {"violated": r.violated, "distinct_until_counterexample": r.distinct}
+    for n, (flag, exts, what) in enumerate(VARIANTS):
+        for m, extc in enumerate(exts):
+            cfg = os.path.join(work, "MC_JournalRun_bad%d_%d.cfg" % (n, m))
+            T.write_cfg(cfg, spec="Spec", constants=mc_consts(**{flag: "FALSE", "ExtChoices": extc}), invariants=PROP_INV + ["NeverEmptyBeforeDurable"])
+            r = T.tlc(mod, cfg, workers=2, timeout=600, xmx="2g")
+            if not r.violated:
+                die_broken("vacuity: the wrong ordering '%s' (%s = FALSE, ext in %s) is not rejected by TLC: %s" % (what, flag, extc, r.error or "no invariant violated"))
+            rej["%s/ext=%s" % (flag, extc.strip("{}"))] = {"violated": r.violated, "distinct_until_counterexample": r.distinct}
+    # ... and the wrong device choice is harmless exactly when there is one device (so the rejection above is due to the second device)
+    cfg = os.path.join(work, "MC_JournalRun_syncdev_int.cfg")
+    T.write_cfg(cfg, spec="Spec", constants=mc_consts(SyncFsDev="FALSE", ExtChoices="{FALSE}"), invariants=PROP_INV + ["NeverEmptyBeforeDurable"])
+    r = T.tlc(mod, cfg, workers=2, timeout=600, xmx="2g")
+    if r.violated or not r.ok:
+        die_broken("SyncFsDev = FALSE with an internal journal (one channel) should satisfy the protocol: %s" % (r.violated or r.error))
     ev.cov["wrong_orderings_rejected"] = rej
     # the named deviations: with each of them exactly its own invariant must fail, everything else must still hold
     for dev, inv, others in (("DevSbPiecemeal", "SbAtomic", [x for x in MC_INV if x != "SbAtomic"]),
@@ -468,11 +564,96 @@ def c03_layout(base, j, info):
     for v, e in S.versions(j):
         vers[J.payload(v, e, base.bs)] = v
     nb = j["cfg"]["nb"]
-    return Layout(base.bs, info["jsb_block"], info["jmap"][1:], {i: base.tb[i] for i in range(1, nb + 1)}, vers, base.nblocks)
+    return Layout(base.bs, info["jsb_block"], info["jmap"][1:], {i: base.tb[i] for i in range(1, nb + 1)}, vers, base.nblocks, jd=info.get("jd", 0))
 
 
-def c03_load_line(j):
-    return {"e": "load", "kind": "c03", "cfg": {"L": j["cfg"]["L"], "csum": j["cfg"]["csum"], "async": j["cfg"]["async"]},
+class ExtBase:
+    """A filesystem image WITHOUT an internal journal plus a journal device image (mke2fs -O journal_dev), attached to each other
+    the way ext2fs_add_journal_device does it (s_journal_uuid of the filesystem = UUID of the journal device, has_journal set,
+    s_journal_inum = 0; the filesystem's UUID entered into the journal superblock's user list by write_ext_journal).
+    mke2fs -J device= itself insists on a block special file, so the attachment is done with debugfs as tests/j_ext_long_trans does."""
+    def __init__(self, b, work, profile):
+        inner, jblocks = EXT_PROFILES[profile]
+        opts = list(c03.PROFILES[inner])
+        bsz = opts[opts.index("-b") + 1]
+        if "-J" in opts:
+            k = opts.index("-J"); del opts[k:k + 2]
+        if "-O" in opts:
+            k = opts.index("-O"); opts[k + 1] += ",^has_journal"
+        else:
+            opts += ["-O", "^has_journal"]
+        self.profile = profile
+        self.path = os.path.join(work, "base_%s.img" % profile)
+        self.jpath = os.path.join(work, "base_%s.jnl" % profile)
+        env = tool_env(b)
+        rc, out, err = sh([b + "/misc/mke2fs", "-q", "-F", "-b", bsz, "-O", "journal_dev", "-U", JNL_UUID, self.jpath, str(jblocks)], env=env, timeout=120)
+        if rc != 0:
+            raise RuntimeError("mke2fs -O journal_dev failed for profile %s: %s" % (profile, err.decode()[-500:]))
+        rc, out, err = sh([b + "/misc/mke2fs", "-q", "-F"] + opts + ["-E", "lazy_itable_init=0,hash_seed=11111111-2222-3333-4444-555555555555",
+                           "-U", FS_UUID, self.path, c03.PROFILE_SIZE[inner]], env=env, timeout=120)
+        if rc != 0:
+            raise RuntimeError("mke2fs failed for profile %s: %s" % (profile, err.decode()[-500:]))
+        rc, out, err = sh([b + "/debugfs/debugfs", "-w", "-f", "-", self.path], env=env, timeout=60,
+                          input=("feature has_journal\nssv journal_dev 0\nssv journal_uuid %s\n" % JNL_UUID).encode())
+        im = J.Image(self.path)
+        if rc != 0 or not im.f_compat & 0x4 or im.journal_inum != 0 or im.sb[208:224].hex() != JNL_UUID.replace("-", ""):
+            raise RuntimeError("attaching the journal device failed for profile %s: %s" % (profile, (out + err).decode()[-500:]))
+        self.bs = im.bs
+        jim = J.Image(self.jpath)
+        if jim.bs != im.bs or not jim.f_incompat & 0x8 or jim.blocks_count != jblocks:
+            raise RuntimeError("journal device image of profile %s is not what was asked for" % profile)
+        self.jblocks = jblocks
+        self.jsb_block = 2 if im.bs == 1024 else 1          # ext2fs_journal_sb_start(): the block after the ext2 superblock of the device
+        jsb = J.read_jsb(self.jpath, self.jsb_block)
+        if not jsb["magic_ok"] or jsb["blocksize"] != im.bs or jsb["first"] != self.jsb_block + 1:
+            raise RuntimeError("journal superblock of the journal device not found at block %d (%s)" % (self.jsb_block, jsb))
+        free = im.free_blocks(0)
+        if len(free) < 600:
+            raise RuntimeError("too few free blocks in base image")
+        self.tb = {1: free[100], 2: free[101], 3: free[333], 4: free[-7]}
+        self.nblocks = im.blocks_count
+
+
+def write_ext_journal(fs_path, jnl_path, base, absj, first=1, uuid_mode="first", junk_mode="zero", needs_recovery=1):
+    """Encode absj (gen/jbd2write.py Encoder) into the journal DEVICE image: journal superblock at base.jsb_block, ring position p at
+    device block jsb_block + first + p - 1 (an external journal's logical block numbers are device block numbers)."""
+    cfg = absj["cfg"]
+    bs, jb = base.bs, base.jsb_block
+    juuid = bytes.fromhex(JNL_UUID.replace("-", ""))
+    enc = J.Encoder(cfg, bs, juuid, base.tb, uuid_mode, junk_mode)
+    L = cfg["L"]
+    f0 = jb + first
+    maxlen = f0 + L
+    if maxlen > base.jblocks:
+        raise ValueError("ring does not fit the journal device")
+    start = absj["jsb"]["start"]
+    sb = bytearray(enc.superblock(f0, maxlen, absj["jsb"]["seq"], 0 if start == 0 else f0 + start - 1))
+    struct.pack_into(">I", sb, 64, 1)                                      # s_nr_users
+    sb[0x100:0x110] = bytes.fromhex(FS_UUID.replace("-", ""))              # s_users[0] = the filesystem that uses the device
+    if enc.v23:
+        struct.pack_into(">I", sb, 0xFC, 0)
+        struct.pack_into(">I", sb, 0xFC, J.crc32c_raw(0xFFFFFFFF, bytes(sb[:1024])))
+    with open(jnl_path, "r+b") as f:
+        f.seek(jb * bs); f.write(sb)
+        for p in range(1, L + 1):
+            f.seek((f0 + p - 1) * bs); f.write(enc.block(absj["log"][p - 1], p))
+    J.Image(fs_path).set_needs_recovery(needs_recovery)
+    return dict(jsb_block=jb, jmap=list(range(jb, maxlen)), bs=bs, first=first, jd=1)
+
+
+def concretize_ext(j, base, fs_path, jnl_path):
+    shutil.copyfile(base.path, fs_path)
+    shutil.copyfile(base.jpath, jnl_path)
+    with open(fs_path, "r+b") as f:
+        for i in range(1, j["cfg"]["nb"] + 1):
+            f.seek(base.tb[i] * base.bs)
+            f.write(J.payload(j["fs0"][i - 1], j["fs0esc"][i - 1], base.bs))
+    c = j["conc"]
+    return write_ext_journal(fs_path, jnl_path, base, j, first=c["first"], uuid_mode=c["uuid_mode"], junk_mode=c["junk_mode"], needs_recovery=j["nr"])
+
+
+def c03_load_line(j, ext=0):
+    return {"e": "load", "kind": "c03", "ext": ext, "cfg": {"L": j["cfg"]["L"], "csum": j["cfg"]["csum"], "async": j["cfg"]["async"]},
             "jsb": j["jsb"], "nr": j["nr"], "fs0": j["fs0"], "log": j["log"], "hist": j["hist"]}
 
 
@@ -485,9 +666,9 @@ def describe(c, li):
 
 def describe_line(c, ln):
     if ln["e"] == "crash":
-        return ("crash after device event %d of %s with pending raw writes %s of which %s survive: image %s; re-run (rc %s) left blocks %s, "
+        return ("crash after device event %d of %s with pending raw writes %s (on devices %s; 0 = filesystem, 1 = journal device) of which %s survive: image %s; re-run (rc %s) left blocks %s, "
                 "journal start %s, needs_recovery %s, %d other differing blocks %s, torn superblock %s, s_state-only difference %s" % (
-                    ln["_n"], c.fe, ln["_pending_raw"], ln["_kept_raw"], ln["img"], ln["_rc"], ln["obs"], ln["jstart"], ln["nro"], ln["diff"], ln["_diff_blocks"],
+                    ln["_n"], c.fe, ln["_pending_raw"], ln.get("_pending_dev", []), ln["_kept_raw"], ln["img"], ln["_rc"], ln["obs"], ln["jstart"], ln["nro"], ln["diff"], ln["_diff_blocks"],
                     ln["torn"], ln["sdiff"]))
     if ln["e"] == "done":
         return "end of the uninterrupted run of %s: blocks %s journal start %s needs_recovery %s" % (c.fe, ln["obs"], ln["jstart"], ln["nro"])
@@ -561,6 +742,8 @@ def run(tier):
         try:
             profs = ["ext4_1k", "ext3_1k", "ext4_4k_csum64"]
             bases = {p: c03.Base(b, work, p) for p in profs}
+            for p in EXT_PROFILES:
+                bases[p] = ExtBase(b, work, p)
         except (RuntimeError, ValueError) as e:
             die_broken("base image: %s" % e)
         rng = random.Random(seed())
@@ -575,21 +758,30 @@ def run(tier):
                 if tier == "quick" and fi != n % 3 and fi != (n + 1) % 3:
                     continue                                                # quick: two of the three front-ends per journal
                 specs.append((n, j, prof, fe, random.Random(seed() * 1000003 + n * 7 + fi)))
+            # the journal-location dimension (ExtChoices of the spec): the same journal on a journal device of its own --
+            # quick: every third journal, thorough: every fourth (n % 4 == 1, 2, 3, 0 in turn, so every profile); block size as in the journal's internal profile
+            if (n % 3 == 0) if tier == "quick" else (n % 4 == (n // 4) % 4):
+                xprof = "ext4_4k_csum64_xj" if prof == "ext4_4k_csum64" else "ext4_1k_xj"
+                for fi, fe in enumerate(FRONTENDS):
+                    if tier == "quick" and fi != (n // 3) % 3 and fi != (n // 3 + 1) % 3:
+                        continue
+                    specs.append((n, j, xprof, fe, random.Random(seed() * 1000003 + n * 7 + fi + 500009)))
 
         def one(k, suffix=""):
             n, j, prof, fe, r0 = specs[k]
             base = bases[prof]
-            tag = "%d_%s%s" % (n, fe, suffix)
-            src = os.path.join(work, "s_%s.img" % tag)
+            ext = 1 if prof in EXT_PROFILES else 0
+            tag = "%d%s_%s%s" % (n, "x" if ext else "", fe, suffix)
+            srcs = [os.path.join(work, "s_%s.%s" % (tag, sfx)) for sfx in ("img", "jnl")[:1 + ext]]
             try:
-                info = c03.concretize(j, base, src)
+                info = concretize_ext(j, base, srcs[0], srcs[1]) if ext else c03.concretize(j, base, srcs[0])
             except Exception as e:
                 return {"error": repr(e)}
-            with open(src, "rb") as f:
-                img0 = f.read()
-            os.unlink(src)
+            img0 = read_all(srcs)
+            for p in srcs:
+                os.unlink(p)
             lay = c03_layout(base, j, info)
-            c = run_case(b, work, tag, c03_load_line(j), img0, lay, fe, tier, random.Random(r0.random()), max_points, max_subsets, real_checks)
+            c = run_case(b, work, tag, c03_load_line(j, ext), img0, lay, fe, tier, random.Random(r0.random()), max_points, max_subsets, real_checks)
             c.key = "%s@%s" % (j["stratum"]["kind"], prof)
             c.replay = {"journal": j, "profile": prof, "frontend": fe}
             return c
@@ -612,6 +804,12 @@ def run(tier):
         ev.cov["crash_images_rerun"] = sum(c.crash_cases for c in cases)
         ev.cov["real_kill_crosschecks"] = sum(c.real_crash for c in cases)
         ev.cov["evaluations"] += sum(c.crash_cases + 1 for c in cases)
+        xc = [c for c in cases if c.replay["profile"] in EXT_PROFILES]
+        ev.cov["external_journal"] = {"runs": len(xc), "by_frontend": {fe: sum(1 for c in xc if c.fe == fe) for fe in FRONTENDS},
+                                      "events_on_journal_device": sum(c.n_jdev for c in xc), "crash_images_rerun": sum(c.crash_cases for c in xc),
+                                      "crash_images_devices_fare_differently": sum(c.cross_dev for c in xc)}
+        if xc and not ev.cov["external_journal"]["events_on_journal_device"] and not vd.viol:
+            die_broken("external-journal runs recorded no event on the journal device: instrumentation incomplete")
         for c in cases:
             for k in c.nontrivial:
                 ev.nontrivial(k)
@@ -623,7 +821,8 @@ def run(tier):
             raise mc_out[0][1]
         ev.cov["rule"] = ("crash states (journal of the stratified C03 stream or repository j_* image, front-end, crash point, kept subset); non-trivial = a replayed "
                           "block or the journal-superblock write is pending and only a strict non-empty part of the pending writes survives, or a replayed block "
-                          "and the journal superblock are pending together; distinct by (run, crash point, kept subset)")
+                          "and the journal superblock are pending together, or (journal device) both devices have pending writes and fare differently (one keeps all / nothing, the other "
+                          "does not); distinct by (run, crash point, kept subset)")
         c0 = cases[0]
         ev.sample({"frontend": c0.fe, "journal_kind": c0.key, "lines": [strip(x) for x in c0.lines[1:14]]})
         cl = [x for c in cases for x in c.lines if x["e"] == "crash" and 0 < len(x["_kept_raw"]) < len(x["_pending_raw"])]
@@ -648,7 +847,10 @@ ASSUMPTIONS = [
     "the re-run uses the same front-end as the interrupted run; tools run with fixed E2FSCK_TIME / E2FSPROGS_FAKE_TIME",
     "Final of a generated journal is what the transcription of recovery.c in spec/Jbd2.tla computes with C03's registered deviations enabled (what an uninterrupted recovery yields); "
     "whether that equals the committed-transactions ground truth is property C03",
-    "internal journals only; fast-commit replay is not modelled; the unix_io cache is over-approximated by nondeterministic write-back in the model and observed as it is in the traces",
+    "journal location: internal journal inode, or a journal device of its own (regular image file made by mke2fs -O journal_dev and attached by UUID with debugfs, because "
+    "mke2fs -J device= insists on a block special file); e2fsck is given the journal with -j, debugfs jr finds it through libblkid (BLKID_FILE cache naming the image). "
+    "The two devices lose unflushed writes independently; an fsync covers only the device it is issued on",
+    "fast-commit replay is not modelled; the unix_io cache is over-approximated by nondeterministic write-back in the model and observed as it is in the traces",
 ]
 
 
@@ -667,12 +869,13 @@ def repo_case(b, work, d, raw_img, fe, tier, rng, max_points, max_subsets, real_
         return None, "not parsed by the independent reader (%s)" % e
     bs = im.bs
     lay0 = Layout(bs, jmap[0], jmap[1:], {}, {}, im.blocks_count)
-    a0 = lay0.abstract(raw_img)
+    a0 = lay0.abstract([raw_img])
     if a0["jsb"] != 1:
         return None, "journal superblock empty or without magic"
     # pass 1: which blocks does the replay write (before the journal is released), and which of them are written again later
-    rc, msg, tr, bl = traced_run(b, fe, src)
-    raw, shadow = classify(tr, bl, raw_img, lay0)
+    rc, msg, tr, bl = traced_run(b, fe, [src])
+    raw, shadows = classify(tr, bl, [raw_img], lay0)
+    shadow = shadows[0]
     for p in (src, tr, bl):
         if os.path.exists(p):
             os.unlink(p)
@@ -703,12 +906,12 @@ def repo_case(b, work, d, raw_img, fe, tier, rng, max_points, max_subsets, real_
     tb = {i + 1: blk for i, blk in enumerate(R)}
     vers = {i + 1: {c: v for v, c in enumerate(contents[blk])} for i, blk in enumerate(R)}
     lay = Layout(bs, jmap[0], jmap[1:], tb, vers, im.blocks_count)
-    final_abs = lay.abstract(shadow)
+    final_abs = lay.abstract([shadow])
     st0, st1 = raw_img[SB_OFF + 58], shadow[SB_OFF + 58]
     rfail = 1 if ((st1 & 2) and not (st0 & 2)) or ((st0 & 1) and not (st1 & 1)) else 0      # the run recorded a failed recovery in s_state
-    load = {"e": "load", "kind": "obs", "jsb0": a0["jsb"], "nr": a0["sb"], "rfail": rfail, "init": [0] * len(R), "final": final_abs["blk"],
+    load = {"e": "load", "kind": "obs", "ext": 0, "jsb0": a0["jsb"], "nr": a0["sb"], "rfail": rfail, "init": [0] * len(R), "final": final_abs["blk"],
             "legal": [list(range(1, len(contents[blk]))) for blk in R]}
-    c = run_case(b, work, "rt_%s_%s%s" % (d, fe, suffix), load, raw_img, lay, fe, tier, rng, max_points, max_subsets, real_checks)
+    c = run_case(b, work, "rt_%s_%s%s" % (d, fe, suffix), load, [raw_img], lay, fe, tier, rng, max_points, max_subsets, real_checks)
     c.key = "tests/%s" % d
     c.replay = {"test": d, "frontend": fe}
     c.nrep, c.nlater = len(R), len([x for x in rep if x in later])
@@ -783,12 +986,13 @@ def replay(path):
         ev = Evidence(PID, "quick", "model_checking")
         if "journal" in cs:
             j, prof, fe = cs["journal"], cs["profile"], cs["frontend"]
-            base = c03.Base(b, work, prof)
-            src = os.path.join(work, "rp.img")
-            info = c03.concretize(j, base, src)
-            img0 = open(src, "rb").read()
+            ext = 1 if prof in EXT_PROFILES else 0
+            base = ExtBase(b, work, prof) if ext else c03.Base(b, work, prof)
+            srcs = [os.path.join(work, "rp." + sfx) for sfx in ("img", "jnl")[:1 + ext]]
+            info = concretize_ext(j, base, srcs[0], srcs[1]) if ext else c03.concretize(j, base, srcs[0])
+            img0 = read_all(srcs)
             lay = c03_layout(base, j, info)
-            c = run_case(b, work, "rp", c03_load_line(j), img0, lay, fe, "thorough", random.Random(1), 10 ** 6, 64, 1)
+            c = run_case(b, work, "rp", c03_load_line(j, ext), img0, lay, fe, "thorough", random.Random(1), 10 ** 6, 64, 1)
         elif "test" in cs:
             fe = cs["frontend"]
             raw_img = gzip.open(os.path.join(b, "tests", cs["test"], "image.gz")).read()
